@@ -54,6 +54,15 @@ FLOORS = {
     'v:seq': (0.15, 'judge:evaluated'),
     't:function-typed': (0.04, 'pair'), 't:kind-args': (0.08, 'pair'), 't:blanks': (0.15, 'pair'),
     'sig:success': (0.30, 'sig:call'),
+    'sweep:duration:neg:success': (0.6, 'sweep:duration:neg:call'), 'sweep:duration:zero:success': (0.6, 'sweep:duration:zero:call'),
+    'sweep:numeric:neg:success': (0.6, 'sweep:numeric:neg:call'), 'sweep:numeric:zero:success': (0.6, 'sweep:numeric:zero:call'),
+    'sweep:numeric:huge:success': (0.6, 'sweep:numeric:huge:call'), 'sweep:numeric:boundary:success': (0.6, 'sweep:numeric:boundary:call'),
+    'sweep:numeric:special:success': (0.6, 'sweep:numeric:special:call'),
+    'sweep:datetime:bce:success': (0.6, 'sweep:datetime:bce:call'), 'sweep:datetime:year>9999:success': (0.6, 'sweep:datetime:year>9999:call'),
+    'sweep:datetime:24h:success': (0.6, 'sweep:datetime:24h:call'), 'sweep:datetime:no-tz:success': (0.6, 'sweep:datetime:no-tz:call'),
+    'sweep:string:empty:success': (0.6, 'sweep:string:empty:call'), 'sweep:string:astral:success': (0.6, 'sweep:string:astral:call'),
+    'sweep:seq:empty:success': (0.6, 'sweep:seq:empty:call'), 'sweep:seq:long:success': (0.6, 'sweep:seq:long:call'),
+    'sig:item-call': (0.95, 'sig:success'),
     'gen:premises-hold': (0.15, 'gen:triple'),
 }
 
@@ -1086,12 +1095,17 @@ def judge_judgement(case, rec: Recorder | None = None) -> list[Disc]:
             accepted = o_tr[0] == 'ok'
             same_as_instance = o_ins[0] == 'ok' and o_ins[1] is accepted and \
                 (accepted or o_tr[1] == 'XPDY0050')
+            # the very error that `instance of` raises for this pair (e.g. the type-argument lookup failure) is the
+            # same root cause and already reported under C18/instance/...
+            same_error = o_ins[0] == 'err' and o_tr[0] == 'err' and o_tr[1] != 'XPDY0050' and \
+                _slug(o_ins) == _slug(o_tr)
+            same_as_instance = same_as_instance or same_error
             if want and not accepted:
                 k_tr = None if same_as_instance else 'rejects-matching:' + o_tr[1]
             elif not want and accepted:
                 k_tr = None if same_as_instance else 'accepts-nonmatching'
             elif not want and o_tr[1] != 'XPDY0050':
-                k_tr = 'wrong-code:' + _slug(o_tr)
+                k_tr = None if same_error else 'wrong-code:' + _slug(o_tr)
             elif want:
                 res = o_tr[1]
                 if tvars is not None and not _same_items(res, pyval):
@@ -1610,6 +1624,8 @@ def _build_sig_values():
 
 
 SIG_VALUES = _build_sig_values()
+import re as _re
+_BIG = _re.compile(r'\d{6,}|E\+?\d{2,}|INF')
 _SIG_DEFAULT_ATOM = {   # benign companion argument for the other parameters
     'xs:string': "'abc'", 'xs:integer': '1', 'xs:double': '1e0', 'xs:decimal': '1.5', 'xs:numeric': '1', 'xs:boolean': 'true()',
     'xs:anyAtomicType': "'abc'", 'xs:duration': "xs:duration('P1D')", 'xs:dayTimeDuration': "xs:dayTimeDuration('PT1H')",
@@ -1688,12 +1704,17 @@ def sweep_cases(sig, stride=1):
             continue
         wide = ptype in ('xs:anyAtomicType',)
         cands = [v for v in SIG_VALUES if rs.derives_from(v[0], ptype)]
+        if i > 0:
+            # magnitudes >= 10^6 / infinities only in the first parameter: as precision or exponent they make
+            # elementpath compute 10 ** 10**30 (round-half-to-even(1, -10**30) does not return) - not C18's subject
+            cands = [v for v in cands if not (v[1].startswith('numeric:') and _BIG.search(v[2]))]
         if wide and stride > 1:
-            seen, thin = set(), []
-            for j, v in enumerate(cands):
-                if (v[0], v[1]) not in seen or j % stride == 0:
+            seen, thin = {}, []
+            for v in cands:
+                k = seen.get((v[0], v[1]), 0)
+                if k % stride == 0:
                     thin.append(v)
-                seen.add((v[0], v[1]))
+                seen[v[0], v[1]] = k + 1
             cands = thin
 
         def mk(expr, cls, shape):
